@@ -273,4 +273,21 @@ PROPS = {
             "the `gleam` executable is absent (GLEAM_PATH points nowhere): the server runs without its interop child",
         ],
     },
+    "C11": {
+        "bin": "m_incr",
+        "build": BUILD_VH,
+        "level": "exploration",
+        "budget": {"quick": 25, "thorough": 900},
+        "timeout": {"quick": 1500, "thorough": 14400},
+        "death_is_violation": False,
+        "rule": ("histories of 12 [thorough 60] changes over generated workspaces of 1-4 modules in 1-2 packages: token/char edits, first line dropped, function appended/prepended, lines rotated, whole-file replacement, "
+                 "file emptied, file added (roots re-set), dependency edge added/removed (package graph re-set alone), roots+graph replaced - each preceded by ~40 arbitrary queries on the long-lived host. After EVERY step a probe set "
+                 "(diagnostics, syntax tree, full highlight per file; hover, goto, references, highlight, completion plain and '.', signature help, prepare-rename, rename at 12 [30] seeded token boundaries per file) is asked of the long-lived host, "
+                 "of a fresh host, and of a second fresh host in shuffled order; normal forms must be equal. Every 4th state is additionally re-analysed in a separate process (different HashMap keys) and the per-probe hashes compared. "
+                 "evaluations = probe answers; non-trivial = history with >= 2 changes that completed; distinct by case seed."),
+        "assumptions": [
+            "normal form: sequences whose order carries meaning stay sequences; references, highlights, completion items and rename edits are compared as sorted multisets (HashSet iteration order is not part of the answer)",
+            "file removal is not part of the statement and is not generated; FileIds are stable across the history and identical in the fresh hosts",
+        ],
+    },
 }
